@@ -237,3 +237,20 @@ Example cr_nested_reverted_then_selfdestruct :
   b_ok (model_obs w_cr_nested_reverted_then_selfdestruct) = true /\ b_supply (model_obs w_cr_nested_reverted_then_selfdestruct) = 0 /\
   b_nonce (model_obs w_cr_nested_reverted_then_selfdestruct) = [0; 1; 0] /\ nth 0 (b_bal (model_obs w_cr_nested_reverted_then_selfdestruct)) 0 = 4966.
 Proof. vm_compute. repeat split; reflexivity. Qed.
+
+(** * a storage write that restores the pre-transaction value, made in a frame that fails *)
+(** the outer frame sets slot 1 to 7; a nested frame of the same contract writes it back to 0 (the committed value) and
+    reverts: the slot is 7 at the end — the write-back is journalled like any other write *)
+Example wb_direct :
+  model_obs w_wb_direct = impl_obs w_wb_direct /\ b_ok (model_obs w_wb_direct) = true /\
+  In (2%N, 1, 7) (b_storage (model_obs w_wb_direct)).
+Proof. vm_compute. split; [reflexivity|]. split; [reflexivity|]. auto. Qed.
+Example wb_through_other_contract :
+  model_obs w_wb_through_other_contract = impl_obs w_wb_through_other_contract /\ b_ok (model_obs w_wb_through_other_contract) = true /\
+  In (2%N, 0, 2) (b_storage (model_obs w_wb_through_other_contract)).
+Proof. vm_compute. split; [reflexivity|]. split; [reflexivity|]. auto. Qed.
+(** the same write-back in a frame that succeeds is kept; a later failing frame that changes the slot and restores it leaves 0 *)
+Example wb_kept_then_reverted :
+  model_obs w_wb_kept_then_reverted = impl_obs w_wb_kept_then_reverted /\ b_ok (model_obs w_wb_kept_then_reverted) = true /\
+  b_storage (model_obs w_wb_kept_then_reverted) = [].
+Proof. vm_compute. repeat split; reflexivity. Qed.
